@@ -238,7 +238,7 @@ pub fn check_proxy(run: &mut Run) {
                 let m = &rv.msg;
                 // C04 / C10 signature
                 if on("C04") || on("C10") {
-                    let key_expected = phase.latched_guid.is_some() && phase.prev_doc.is_none();
+                    let key_expected = phase.latched_guid.is_some() && phase.prev_doc.is_none() && doc_enabled(&phase.doc);
                     match &rv.sig {
                         SigCheck::Valid { guid, .. } => {
                             bump("sig.valid");
@@ -300,13 +300,13 @@ pub fn check_proxy(run: &mut Run) {
                         }
                         if ln == "x-ms-azure-host-authorization" {
                             let signed = matches!(rv.sig, SigCheck::Valid { .. } | SigCheck::Invalid { .. } | SigCheck::Malformed(_));
-                            let key_latched = phase.latched_guid.is_some() && phase.prev_doc.is_none();
+                            let key_latched = phase.latched_guid.is_some() && phase.prev_doc.is_none() && doc_enabled(&phase.doc);
                             if key_latched && !exempt && m.head.get_all(&ln).iter().any(|x| x.as_slice() == v.as_slice()) {
                                 viol.push(("C05".into(), "client-supplied authorization header reached the host on a signed request".into(), format!("tok={} signed={}", rq.tok, signed)));
                             }
                         }
                     }
-                    if m.head.count("x-ms-azure-host-authorization") > 1 {
+                    if m.head.count("x-ms-azure-host-authorization") > 1 && phase.latched_guid.is_some() && phase.prev_doc.is_none() && doc_enabled(&phase.doc) && !exempt {
                         viol.push(("C05".into(), "more than one authorization header at the host".into(), rq.tok.clone()));
                     }
                     bump("c05.checked");
@@ -354,7 +354,7 @@ pub fn check_proxy(run: &mut Run) {
                             viol.push(("C15".into(), "over-limit body not answered with 4xx".into(), format!("tok={} len={} status={}", rq.tok, body_len, st)));
                         }
                     }
-                } else if attributed && !traversal && !provision && outcomes.iter().all(|o| matches!(o, Outcome::Relay | Outcome::RelayAudit)) && !faults_flowing {
+                } else if attributed && !traversal && !provision && outcomes.iter().all(|o| matches!(o, Outcome::Relay | Outcome::RelayAudit)) && !faults_flowing && status.is_some() {
                     bump("c15.within");
                     if !relayed {
                         viol.push(("C15".into(), "body within the limit not relayed".into(), format!("tok={} len={} limit={} status={:?}", rq.tok, body_len, limit, status)));
@@ -466,6 +466,17 @@ pub fn check_proxy(run: &mut Run) {
     }
     for (p, c, d) in viol {
         run.violate(&p, &c, d);
+    }
+}
+
+/// does the status document ask for a secure channel (so that the agent is expected to hold and use a key)?
+/// Mirrors the protocol description, not the implementation: version 2.0 -> secureChannelEnabled and rules
+/// present; version 1.0 -> secureChannelState other than "disabled".
+pub fn doc_enabled(doc: &Value) -> bool {
+    if doc["version"] == "2.0" {
+        doc["secureChannelEnabled"] == true && doc["authorizationRules"].is_object()
+    } else {
+        doc["secureChannelState"].as_str().map(|s| s.to_lowercase() != "disabled").unwrap_or(false)
     }
 }
 
